@@ -1,6 +1,6 @@
 (* Model of ensurePort (network.go), NewClientTransport / NewComponentTransport
    (transport.go, the choice of transport and of the dial address only),
-   WebsocketTransport.IsSecure, extractParams / NewChecker (cert_checker.go) and a
+   extractParams / NewChecker (cert_checker.go) and a
    transcription of Go's net.SplitHostPort (net/ipsock.go), used as the
    specification of "a valid host:port that net.Dial accepts syntactically".
    The transport choice and the checker are modelled as REPAIRED (a scheme is
@@ -107,9 +107,6 @@ Definition has_url_scheme (addr scheme : str) : bool :=
 (* isWebsocketAddress *)
 Definition scheme_prefixed (addr : str) : bool :=
   has_url_scheme addr sch_ws || has_url_scheme addr sch_wss.
-
-(* WebsocketTransport.IsSecure *)
-Definition ws_is_secure (addr : str) : bool := has_url_scheme addr sch_wss.
 
 Definition client_transport (addr : str) : transport :=
   if scheme_prefixed addr then WebSocket addr else Tcp (ensure_port addr 5222).
